@@ -451,6 +451,12 @@ DoEnd(ev) ==
                         \E s \in np : ev.errarg \in MissingSources(g, w.file, s))
                 \cup Lbl({"C04"}, "pool-undeclared-ok", (badPool # {} /\ ok) => \A s \in badPool : ~DirtyNow(g, s) /\ s \notin w.started)
                 \cup Lbl({"C04"}, "pool-arg", ev.errk = "unknown_pool" => \E s \in badPool : PoolOf(g, s) = ev.errarg)
+                \* a name is only judged unknown against a manifest that is up to date: when the
+                \* manifest has a producer, the error may come without a reload only if nothing in
+                \* the manifest's own closure was out of date
+                \cup Lbl({"C17", "C18"}, "unknown-before-regen",
+                       (ev.errk = "unknown_path" /\ w.workNo = 1 /\ HasProducer(g, MFile))
+                          => \A s \in NonPhony(g, W1(g)) : s \in w.finOK \/ ~DirtyNow(g, s))
                 \cup Lbl({"C17"}, "no-reload", (w.p1ok /\ w.workNo = 1 /\ w.finFail = {} /\ w.intr = {}) => ev.err # "")
                 \* ... and when n2 went on without reloading: what it then did is judged against the
                 \* manifest text now on disk (C18's "(reloaded) manifest"): commands run for the
